@@ -145,3 +145,11 @@ def x14(cx: Cx, ob: Ob) -> None:
     from .c02 import check_identifier_hook
 
     check_identifier_hook(cx, ob)
+
+
+@obligation("C06-X18", "standardize_uri keeps the identifier: parse_uri queries the trie with the unmodified URI and returns the input minus exactly the matched prefix (shared with C01-D2/D3)", floor=2)
+def x18(cx: Cx, ob: Ob) -> None:
+    from .c01 import check_parse_uri_lookup, check_remainder
+
+    check_parse_uri_lookup(cx, ob)
+    check_remainder(cx, ob)
